@@ -257,6 +257,71 @@ fn long_history_family(ctx: &Ctx, cfg: &Cfg) -> JobOut {
 }
 
 /// DataItem: every lattice tuple that build() accepts round-trips to an equal value.
+/// Windows beyond 2^16 values: one stream of 70 010 inputs on one instance; at checkpoints around
+/// 65 536 and around the period the instance is serialized and restored, and the restored copy is fed
+/// the next 6 inputs of the stream alongside the original (which simply continues).
+fn huge_window(cfg: &Cfg) -> JobOut {
+    let mut out = JobOut::default();
+    let n = cfg.max_period();
+    let cps: Vec<usize> = vec![1000, 65_535, 65_536, 65_537, n - 1, n, n + 1];
+    let k = 6usize;
+    let len = n + 10;
+    let op_at = |i: usize| -> Op {
+        let x = if i % 3 == 0 { 2.5 + (i % 11) as f64 } else { 1000.0 - (i % 7) as f64 * 0.5 };
+        if cfg.kind.has_scalar() {
+            Op::S(x)
+        } else {
+            Op::B(Bar { o: x, h: x * 1.25, l: x * 0.5, c: x * (0.5 + 0.25 * (i % 4) as f64), v: 1.0 + (i % 3) as f64 })
+        }
+    };
+    let r = std::panic::catch_unwind(std::panic::AssertUnwindSafe(|| -> Result<(), (usize, usize, String)> {
+        let mut a = make(cfg);
+        let mut restored: Option<(usize, Box<dyn Subject>)> = None;
+        for i in 0..len {
+            if cps.contains(&i) {
+                let bytes = a.ser().map_err(|e| (i, 0usize, format!("serialize: {}", e)))?;
+                let b = a.de(&bytes).map_err(|e| (i, 0usize, format!("deserialize: {}", e)))?;
+                if params_text(b.as_ref()) != params_text(a.as_ref()) {
+                    return Err((i, 0, format!("parameters {} vs {}", params_text(b.as_ref()), params_text(a.as_ref()))));
+                }
+                restored = Some((i, b));
+            }
+            let op = op_at(i);
+            let oa = a.apply(&op);
+            if let Some((cp, b)) = restored.as_mut() {
+                let ob = b.apply(&op);
+                if !out_rel_eq(&oa, &ob, 1e-12) {
+                    return Err((*cp, i - *cp + 1, format!("original {} restored {}", out2s(&oa), out2s(&ob))));
+                }
+                if i + 1 - *cp >= k {
+                    restored = None;
+                }
+            }
+        }
+        Ok(())
+    }));
+    out.stats.traces += 1;
+    out.stats.states += cps.len() as u64;
+    out.stats.transitions += (len + cps.len() * k) as u64;
+    out.stats.evaluations += (cps.len() * k) as u64;
+    out.stats.nontrivial += cps.len() as u64;
+    match r {
+        Ok(Ok(())) => {}
+        Ok(Err((cp, i, why))) => {
+            out.fail(
+                Violation::new(PROP, cfg, &[], if why.contains("serialize") { "deserialize-failed" } else if why.starts_with("parameters") { "parameters-changed" } else { "restored-copy-differs" })
+                    .obs(why)
+                    .exp("restored copy behaves like the original".into())
+                    .det(format!("checkpoint after {} inputs of the zigzag stream (x_i = 2.5 + i%11 if i%3 == 0 else 1000 - (i%7)/2), continuation output {}", cp, i))
+                    .with("checkpoint", format!("serde@{}", cp))
+                    .with("generator", "zigzag-70010".to_string()),
+            );
+        }
+        Err(_) => out.fail(Violation::new(PROP, cfg, &[], "panic").obs("panic".into()).exp("same outputs".into())),
+    }
+    out
+}
+
 fn data_items(out: &mut JobOut) {
     let lat = [f64::NEG_INFINITY, -2.0, -1.0, -0.0, 0.0, 1.0, 2.0, 3.0, f64::INFINITY, f64::NAN];
     let dummy = Cfg::p0(crate::subjects::Kind::Obv);
@@ -345,6 +410,24 @@ pub fn run(ctx: &Ctx) -> CheckResult {
         res.extra.insert("long_history_family_configs".into(), json!(big.len()));
         res.absorb(merge_jobs(outs));
     }
+    // windows beyond 2^16 values (cursor / counter width on the wire)
+    if !res.out.failed() {
+        use crate::subjects::Kind;
+        let mut huge = vec![];
+        for k in ALL_KINDS {
+            if !k.allocates() || k.nperiods() != 1 {
+                continue;
+            }
+            // O(window) per step: thorough only
+            if matches!(k, Kind::Mad | Kind::Cci | Kind::Er) && !th {
+                continue;
+            }
+            huge.push(if k.has_mult() { Cfg::pm(k, 70_000, 2.0) } else { Cfg::p1(k, 70_000) });
+        }
+        huge.push(Cfg::p2(crate::subjects::Kind::SlowStoch, 70_000, 3));
+        let outs = par_run(ctx, &huge, |_, cfg| huge_window(cfg));
+        res.absorb(merge_jobs(outs));
+    }
     if !res.out.failed() {
         let mut o = JobOut::default();
         data_items(&mut o);
@@ -361,7 +444,7 @@ pub fn run(ctx: &Ctx) -> CheckResult {
     res.extra.insert("checkpoints".into(), json!(rows));
     res.extra.insert("distinct_checkpoint_states_total".into(), json!(total_cp));
     res.rule = "case = (configuration, checkpoint history, continuation): the real indicator after the history is serialized with bincode and deserialized once and twice; every continuation of n+2 inputs over 3 values is fed to the original (rebuilt by replay) and both restored copies, outputs compared at 1e-12 relative; checkpoints de-duplicated by concrete state; non-trivial = checkpoint history at least as long as the window".into();
-    res.bounds = format!("all 22 indicators, periods 1..4 (tuples over {{1,2,3}}), every history in seq(3 (thorough: 4) values + NaN + a 3.3e7 spike + reset, {dp}) as checkpoint, all 3^(n+2) continuations over 2 values + reset; long-history family: every prefix length 0..=3n+3 of 2 default streams (with resets and a NaN) as checkpoint for periods up to 64/257 (defaults 9,10,14,20,22,12/26/9 included), 3 continuations of n+2 inputs; all 10^5 lattice DataItems that build() accepts");
+    res.bounds = format!("all 22 indicators, periods 1..4 (tuples over {{1,2,3}}), every history in seq(3 (thorough: 4) values + NaN + a 3.3e7 spike + reset, {dp}) as checkpoint, all 3^(n+2) continuations over 2 values + reset; long-history family: every prefix length 0..=3n+3 of 2 default streams (with resets and a NaN) as checkpoint for periods up to 64/257 (defaults 9,10,14,20,22,12/26/9 included), 3 continuations of n+2 inputs; period 70000 on a 70010-step stream with checkpoints at 1000, 65535..65537 and 69999..70001; all 10^5 lattice DataItems that build() accepts");
     res.assumptions = vec!["bincode 1.3 is the serialization format exercised (the property names it)".into()];
     res
 }
